@@ -244,7 +244,12 @@ func (p *Element) SetBytesUncompressed(buf []byte, trusted bool) error {
 	}
 
 	var x fp.Element
-	x.SetBytes(buf[:coordinateSize])
+	if trusted {
+		x.SetBytes(buf[:coordinateSize])
+	} else if err := x.SetBytesCanonical(buf[:coordinateSize]); err != nil {
+		// untrusted input must be the canonical encoding (< p) of x
+		return fmt.Errorf("invalid uncompressed point: %s", err)
+	}
 
 	var y fp.Element
 	// point in curve & subgroup check
